@@ -257,7 +257,7 @@ PROPS["C02"] = {
     "props": ["OsmVerif.Props.C02"],
     "gens": ["Pbf"],
     "race": True,
-    "model_is_spec": ["par "],
+    "model_is_spec": ["par ", "pard "],
     "required_theorems": ["inv_init", "inv_step", "order_under_every_schedule", "complete_when_quiescent", "not_stuck", "pipeline_shape"],
     "technique": "Lean 4 transition system of the reader / n decoders / serializer pipeline with unbounded queues; invariant proved by induction over arbitrary schedules: the consumer receives blocks 0..m-1 in file order for every n, every number of blocks and every interleaving, all blocks when quiescent, never stuck before; the pipeline's round-robin and forwarding statements pinned in the regenerated body of decoder.Start; the real scanner with 1..32 decoders under perturbed timing compared with the format model and the single-decoder scan, under the Go race detector",
     "level_text": "Machine-checked proof over the model: for every number of decoders n >= 1, every number of blocks and every schedule (any sequence of reader, decoder-take, decoder-finish and serializer steps; unbounded queues, of which bounded and unbuffered Go channels allow a subset), the sequence handed to the consumer is 0,1,...,m-1 - file order, nothing lost, duplicated or swapped; when no step is enabled it is all blocks; while a block is missing some step is enabled. The model's shape (dispatch k -> decoder k mod n, collection in the same order, one private dataDecoder per goroutine, one block at a time, every result forwarded, a fresh object slice per block) is pinned against the statements regenerated from the source. Partial: goroutine scheduling, channel semantics and memory visibility of the Go runtime are not modelled; they are exercised: 1..32 decoders (more than blocks, more than the channel budget), stalling reader, slow/fast blocks via filter callbacks, stalling consumer retaining all objects, all under the race detector, results compared with the format model and the single-decoder scan.",
